@@ -193,7 +193,17 @@ func runC08(c *core.Ctx) {
 		})) > 0, "NewTags must sort the tags")
 	})
 
-	c.Clause("D3", func() {
+	c.Clause("D3", func() { runMapShardsAccounting(c) })
+
+	// the metadata side of group designation: containment, clipping of new groups against live ones, truncation
+	c.Clause("D5", func() { runTimePredicates(c) })
+
+	c.Clause("D4", func() { runRetentionCutoff(c) })
+}
+
+// runMapShardsAccounting: no point lost, duplicated or wrongly dropped by MapShards (shared by C08 and C17).
+func runMapShardsAccounting(c *core.Ctx) {
+	{
 		f := c.Fn(coord + ".(*PointsWriter).MapShards")
 		info := f.Info()
 		loops := f.Graph().Loops()
@@ -312,12 +322,12 @@ func runC08(c *core.Ctx) {
 				"sgList.Add must receive the group returned by MetaClient.CreateShardGroup after a nil check")
 		}
 		errPropagated(c, f, "error-surfaces", "CreateShardGroup", csg)
-	})
+	}
+}
 
-	// the metadata side of group designation: containment, clipping of new groups against live ones, truncation
-	c.Clause("D5", func() { runTimePredicates(c) })
-
-	c.Clause("D4", func() {
+// runRetentionCutoff: the write-time retention cut-off of MapShards (shared by C08 and C17).
+func runRetentionCutoff(c *core.Ctx) {
+	{
 		f := c.Fn(coord + ".(*PointsWriter).MapShards")
 		info := f.Info()
 		// min := time.Unix(0, MinNanoTime); if rp.Duration > 0 { min = time.Now().Add(-rp.Duration) }
@@ -407,7 +417,7 @@ func runC08(c *core.Ctx) {
 		diff, n, err := core.Equivalent(ren, core.Or(core.Lt("ptime", "min"), core.Atom("covered")))
 		c.Counts["orderings_evaluated"] += n
 		c.Check("retention-cutoff", f.Name+"/guard", c.P.Pos(guard.Pos()), err == nil && diff == "", fmt.Sprintf("%v %s", err, diff))
-	})
+	}
 }
 
 func isZeroLit(info *types.Info, x ast.Expr) bool {
